@@ -51,7 +51,7 @@ type bufAnalysis struct {
 	whole   map[ssa.Value]bool // loads of b.Buf
 	bufAddr map[ssa.Value]bool // &b.Buf
 	geMemo  map[ssa.Value]int  // 0 unknown 1 in-progress(assumed) 2 yes 3 no
-	}
+}
 
 type bufViolation struct {
 	at   ssa.Instruction
